@@ -1,6 +1,7 @@
 // C08 harness: Builder/Compiler node list and serialisation versus direct assembling.
 //   builder script <scripts.ndjson> <trace.ndjson>      scripts: {"ops":[["Emit",n],["Bind",l,n],...]} (from BuilderImpl.tla)
 //   builder random <trace.ndjson> <executions> <steps>  seeded by VERIF_SEED
+//   builder cpool <trace.ndjson> <executions> <steps>   Compiler programs with functions and local/global constant pools
 //   builder probe                                        prints which instruction templates the assemblers refuse
 //
 // Every execution drives one real emitter (x86::Builder x64 / x86 32-bit, a64::Builder, x86::Compiler used with
@@ -25,8 +26,8 @@ static const char* err_name(Error e) { return e == Error::kOk ? "Ok" : DebugUtil
 // ---------------------------------------------------------------------------------------------------------
 // Calls
 // ---------------------------------------------------------------------------------------------------------
-enum Kind { KInst, KBind, KAlign, KData, KEmbedLabel, KEmbedDelta, KComment, KSection, KConstPool, KUnknown };
-static const char* kind_name[] = {"Inst", "Bind", "Align", "Data", "EmbedLabel", "EmbedDelta", "Comment", "Section", "ConstPool", "Unknown"};
+enum Kind { KInst, KBind, KAlign, KData, KEmbedLabel, KEmbedDelta, KComment, KSection, KConstPool, KUnknown, KFunc, KSentinel, KPool };
+static const char* kind_name[] = {"Inst", "Bind", "Align", "Data", "EmbedLabel", "EmbedDelta", "Comment", "Section", "ConstPool", "Unknown", "Func", "Sentinel", "Pool"};
 
 struct Call {
   Kind kind = KUnknown;
@@ -51,6 +52,9 @@ struct Call {
   // how the call is issued (not part of the call): 0 default; Inst: 1 = _emit_op_array; Data: 1 = embed(data,size)
   int via = 0;
   int group = 0, gidx = 0;      // nodes recorded by one embed_const_pool call
+  // Compiler: Func (label = function label), Sentinel (mode = sentinel type), Pool (label, size, alignment = pool alignment, data = image;
+  // items = the constants in the order they were added - harness bookkeeping for the direct run, not node content)
+  FuncNode* fn = nullptr;       // Func: the function;  Bind: the function whose exit label this is (harness bookkeeping)
 
   Call() { for (auto& o : ops) o.reset(); }
 };
@@ -83,6 +87,12 @@ static void write_call(vj::W& w, const Call& c) {
     case KEmbedDelta: w.kv("label", c.label).kv("base", c.base).kv("size", c.size); break;
     case KComment: w.kv("hc", c.has_comment).kv("text", c.comment); break;
     case KSection: w.kv("sec", c.section); break;
+    case KFunc: w.kv("label", c.label); break;
+    case KSentinel: w.kv("mode", c.mode); break;
+    case KPool:
+      w.kv("label", c.label).kv("size", c.size).kv("al", c.alignment);
+      w.bytes("image", c.data.data(), c.data.size());
+      break;
     case KConstPool:
       w.kv("label", c.label);
       w.key("items").beginArr();
@@ -146,7 +156,17 @@ static Error issue(BaseEmitter* e, CodeHolder& code, const Call& c) {
       e->reset_inst_options(); e->reset_extra_reg(); e->reset_inline_comment();
       return err;
     }
-    case KBind: return e->bind(Label(c.label));
+    case KBind: {
+      Error err = e->bind(Label(c.label));
+      if (err == Error::kOk && c.fn) err = e->emit_epilog(c.fn->frame());      // exit label of a function: <Epilog> <Return>
+      return err;
+    }
+    case KFunc: {
+      Error err = e->bind(Label(c.label));
+      if (err == Error::kOk && c.fn) err = e->emit_prolog(c.fn->frame());      // <Prolog>
+      return err;
+    }
+    case KSentinel: return Error::kOk;
     case KAlign: return e->align(AlignMode(c.mode), c.alignment);
     case KData:
       if (c.via == 1) return e->embed(c.data.data(), c.data.size());
@@ -155,6 +175,7 @@ static Error issue(BaseEmitter* e, CodeHolder& code, const Call& c) {
     case KEmbedDelta: return e->embed_label_delta(Label(c.label), Label(c.base), c.size);
     case KComment: return e->comment(c.has_comment ? c.comment.c_str() : nullptr, SIZE_MAX);
     case KSection: return e->section(code.section_by_id(c.section));
+    case KPool:
     case KConstPool: {
       Arena arena(1024);
       ConstPool pool(arena);
@@ -179,6 +200,14 @@ static Call payload_of(BaseNode* node, uint32_t reg_size) {
     for (size_t i = 0; i < 6 && i < n->op_capacity(); i++) c.ops[i].copy_from(n->op(i));
     c.has_comment = n->has_inline_comment();
     if (c.has_comment) c.comment = n->inline_comment();
+  }
+  else if (node->is_func()) { c.kind = KFunc; c.label = node->as<FuncNode>()->label_id(); c.fn = node->as<FuncNode>(); }
+  else if (node->is_sentinel()) { c.kind = KSentinel; c.mode = uint32_t(node->as<SentinelNode>()->sentinel_type()); }
+  else if (node->is_const_pool()) {
+    ConstPoolNode* n = node->as<ConstPoolNode>();
+    c.kind = KPool; c.label = n->label_id(); c.size = uint32_t(n->size()); c.alignment = uint32_t(n->alignment());
+    c.data.resize(n->size());
+    if (n->size()) n->const_pool().fill(c.data.data());
   }
   else if (node->is_section()) { c.kind = KSection; c.section = node->as<SectionNode>()->section_id(); }
   else if (node->is_label() && !node->is_const_pool()) { c.kind = KBind; c.label = node->as<LabelNode>()->label_id(); }
